@@ -59,6 +59,8 @@ def gen_history(rng):
             cand = [x for x in range(N) if x not in fin]
             if cand:
                 ops.append(("status", rng.choice(cand), rng.choice(["claim", "run", "retry", "kill"])))
+                if rng.random() < 0.7:
+                    ops.append(("query", rng.choice([2, 6, 10])))   # the answer depends on the CURRENT statuses: ask right after a change
         else:
             ops.append(("query", rng.choice([0, 1, 2, 3, 6, 10])))
     ops.append(("query", 10))
@@ -149,6 +151,13 @@ def part1(ctx: Ctx, scratch):
     opc: dict = {}
     hists = [gen_history(ctx.rng) for _ in range(n)]
     hists.append([("wait", 0, [1]), ("query", 0), ("wait", 1, [2]), ("query", 5), ("finish", 2), ("query", 5), ("finish", 1), ("query", 5)])
+    # an awaited invocation that is claimed, polled while not runnable, and becomes runnable AGAIN (retry / kill + reroute): the
+    # answer is a function of the graph and the current statuses, not of what earlier polls saw
+    hists.append([("wait", 0, [1]), ("status", 1, "claim"), ("query", 5), ("status", 1, "run"), ("query", 5), ("status", 1, "retry"), ("query", 5),
+                  ("status", 1, "claim"), ("query", 5), ("status", 1, "kill"), ("query", 5), ("wait", 2, [1, 3]), ("status", 3, "run"), ("query", 5),
+                  ("status", 3, "kill"), ("query", 5), ("finish", 1), ("query", 5), ("finish", 3), ("query", 5)])
+    hists.append([("wait", 0, [1]), ("wait", 1, [2]), ("status", 2, "run"), ("query", 10), ("query", 10), ("status", 2, "retry"), ("query", 10),
+                  ("finish", 2), ("query", 10), ("status", 1, "claim"), ("query", 10), ("status", 1, "kill"), ("query", 10)])
     for h in hists:
         for o in h:
             opc[o[0]] = opc.get(o[0], 0) + 1
